@@ -26,7 +26,8 @@ from windpyutils import files as wf
 ENDINGS = ["\n", "\r\n", "\t", "", "yN}"]   # the last one shares characters with the ends of some lines ("é y", "N", "...}")
 NEW = ["", "N", "é"]                   # contents used by the mutators
 CONTENT = ["", "x", "é y"]             # contents of the lines of the source file
-REMOVE = ["", "N", "é", "x"]           # remove(s): the new contents plus one that can only be file-backed
+REMOVE = ["", "N", "é", "x", "é y"]    # remove(s): the new contents plus two that can only be file-backed ("é y": a record line whose
+                                       # text in the source file is not the text save() would produce)
 
 
 @dataclass
